@@ -96,6 +96,32 @@ def check(prog, rep, tier):
         rep.bad('R14.b', 'notification', file=np_.file, line=np_.node.lineno, func=np_.qualname,
                 found='parse %s construct %s' % (formats(np_, 'unpack'), formats(nc, 'pack')), expected='!BB + data',
                 key='notification')
+    # the values given to the encoders reach the wire unchanged on every path
+    for qual, names in (('yabgp.message.notification.Notification.construct', ['error', 'suberror']),):
+        fn = prog.func(qual)
+        _f, outs = codec.run(prog, qual, [Opaque(n_) for n_ in names] + [Opaque('data', 'bytes')], {}, may_raise=False)
+        probs = []
+        nv = 0
+        for k, v, st in outs:
+            if k != 'val' or not isinstance(v, BytesV):
+                continue
+            nv += 1
+            items = [p_ for p_ in BL.fields(BL.flatten(v)) if p_[0] == 'field']
+            body = items[2:2 + len(names)]       # after the header's length and type
+            got = [p_[2].desc() for p_ in body]
+            if got != names:
+                guards = ' & '.join(('%s' if b else 'not %s') % t for t, b, l, q in st.path[-3:])
+                probs.append('a path packs %s where %s were given (%s)' % (got, names, guards or 'unconditional'))
+            if not any(p_[0] == 'opq' and getattr(p_[1], 'd', '') == 'data' for p_ in BL.flatten(v)):
+                probs.append('the data given is not appended unchanged')
+        key = 'fields-unchanged:' + qual.split('.')[-2]
+        if probs:
+            rep.bad('R14.b', key, file=fn.file, line=fn.node.lineno, func=qual, found=probs[0],
+                    expected='code, subcode and data as given', key=key)
+        elif nv:
+            rep.ok('R14.b', key, file=fn.file, line=fn.node.lineno, found='%d path(s)' % nv)
+        else:
+            rep.undecided('R14.b', key, file=fn.file, line=fn.node.lineno, found='no symbolic path')
     rp, rc = prog.func('yabgp.message.route_refresh.RouteRefresh.parse'), \
         prog.func('yabgp.message.route_refresh.RouteRefresh.construct')
     cfmt = ''.join(x.lstrip('!') for x in formats(rc, 'pack'))
@@ -209,6 +235,8 @@ def check(prog, rep, tier):
         rep.bad('R14.c', key, file=f2.file, line=line, func=f2.qualname,
                 found='capa_dict[%s] is (re)created for every capability TLV of that code: with one TLV per '
                       'AFI/SAFI only the last one survives' % k, expected='accumulate', key=key)
+    # the capability dispatch is total over the codes 0..255 (finite partition)
+    cap_dispatch_total(prog, rep, ocls)
     # unknown-code fallback in Open.parse
     fb = False
     for meth in ocls.methods.values():
@@ -221,3 +249,104 @@ def check(prog, rep, tier):
     else:
         rep.bad('R14.c', 'cap-unknown-kept', file=op.file, line=op.node.lineno, func=op.qualname,
                 found='unknown capability codes are not kept in the result', key='cap-unknown-kept')
+
+
+def cap_dispatch_total(prog, rep, ocls):
+    """Every capability code 0..255 is recorded: the if-chain on capa_code ends in an unconditional
+    else, or every code provably matches one of its tests."""
+    capcls = prog.cls('yabgp.message.open.Capability')
+    chains = []
+    for meth in ocls.methods.values():
+        ifs = [n for n in ast.walk(meth.node) if isinstance(n, ast.If) and 'capa_code' in src_of(n.test)]
+        inner = set()
+        for n in ifs:
+            if len(n.orelse) == 1 and isinstance(n.orelse[0], ast.If) and n.orelse[0] in ifs:
+                inner.add(n.orelse[0])
+        for n in ifs:
+            if n not in inner:
+                tests = []
+                cur = n
+                while True:
+                    tests.append(cur.test)
+                    if len(cur.orelse) == 1 and isinstance(cur.orelse[0], ast.If) and cur.orelse[0] in ifs:
+                        cur = cur.orelse[0]
+                        continue
+                    break
+                chains.append((meth, n, tests, cur.orelse))
+    chains = [c for c in chains if len(c[2]) >= 4]
+    if not chains:
+        rep.undecided('R14.c', 'cap-dispatch-total', found='no if-chain on capa_code found in the Open class')
+        return
+    meth, head, tests, final = max(chains, key=lambda c: len(c[2]))
+
+    def const_of(e):
+        if isinstance(e, ast.Attribute) and isinstance(e.value, ast.Name) and not e.attr.startswith('capa_'):
+            c0, e0 = capcls.find_attr(e.attr)
+            if e0 is None:
+                return None
+            v = prog.try_fold(e0, c0.module, c0)
+            if v is None and isinstance(e0, ast.Call) and src_of(e0.func) == 'range':
+                a = [prog.try_fold(x, c0.module, c0) for x in e0.args]
+                if all(isinstance(x, int) for x in a):
+                    return range(*a)
+            return v
+        if isinstance(e, ast.Name):
+            for st in ast.walk(meth.node):
+                if isinstance(st, ast.Assign) and any(isinstance(t, ast.Name) and t.id == e.id for t in st.targets):
+                    if isinstance(st.value, ast.Dict):
+                        ks = [const_of(k) for k in st.value.keys]
+                        return None if any(k is None for k in ks) else set(ks)
+                    return const_of(st.value)
+            return None
+        if isinstance(e, (ast.Tuple, ast.List, ast.Set)):
+            ks = [const_of(k) for k in e.elts]
+            return None if any(k is None for k in ks) else set(ks)
+        return prog.try_fold(e, meth.module, meth.cls)
+
+    def ev(t, c):
+        if isinstance(t, ast.BoolOp):
+            vs = [ev(x, c) for x in t.values]
+            if isinstance(t.op, ast.Or):
+                return True if any(v is True for v in vs) else (False if all(v is False for v in vs) else None)
+            return False if any(v is False for v in vs) else (True if all(v is True for v in vs) else None)
+        if isinstance(t, ast.UnaryOp) and isinstance(t.op, ast.Not):
+            v = ev(t.operand, c)
+            return None if v is None else (not v)
+        if isinstance(t, ast.Compare) and len(t.ops) == 1 and src_of(t.left).endswith('capa_code'):
+            r = const_of(t.comparators[0])
+            if r is None:
+                return None
+            op = t.ops[0]
+            try:
+                if isinstance(op, ast.Eq):
+                    return c == r
+                if isinstance(op, ast.NotEq):
+                    return c != r
+                if isinstance(op, ast.In):
+                    return c in r
+                if isinstance(op, ast.NotIn):
+                    return c not in r
+                if isinstance(op, ast.Lt):
+                    return c < r
+                if isinstance(op, ast.LtE):
+                    return c <= r
+                if isinstance(op, ast.Gt):
+                    return c > r
+                if isinstance(op, ast.GtE):
+                    return c >= r
+            except TypeError:
+                return None
+        return None
+    if final:
+        rep.ok('R14.c', 'cap-dispatch-total', file=meth.file, line=head.lineno,
+               found='%d tests and an unconditional else' % len(tests))
+        return
+    dropped = [c for c in range(256) if not any(ev(t, c) is True for t in tests)]
+    if dropped:
+        rep.bad('R14.c', 'cap-dispatch-total', file=meth.file, line=head.lineno, func=meth.qualname,
+                found='the dispatch on capa_code has no unconditional else and no test is certain to hold for '
+                      'the code(s) %s%s: such a capability vanishes from the decoded set' % (
+                          dropped[:12], ' ...' if len(dropped) > 12 else ''),
+                expected='every code 0..255 is recorded', key='cap-dispatch-total')
+    else:
+        rep.ok('R14.c', 'cap-dispatch-total', file=meth.file, line=head.lineno, found='256 codes matched')
